@@ -224,6 +224,13 @@ def r2_loops(text, ctx, loop_kinds=None):
             if not mm:
                 raise Unsupported('pairs loop pattern ' + pat)
             binds = ['let %s = &%s[%s].0;' % (mm.group(1), seq2, idx), 'let %s = &%s[%s].1;' % (mm.group(2), seq2, idx)]
+        elif ov.get('kind') == 'idpairs':
+            # for (&(a, b), v) in &map  over a key-ordered entry list  [((a, b), v)]
+            mm = re.fullmatch(r'\(\s*&\(\s*(\w+)\s*,\s*(\w+)\s*\)\s*,\s*(\w+)\s*\)', pat)
+            if not mm:
+                raise Unsupported('idpairs loop pattern ' + pat)
+            binds = ['let %s = %s[%s].0.0;' % (mm.group(1), seq2, idx), 'let %s = %s[%s].0.1;' % (mm.group(2), seq2, idx),
+                     'let %s = &%s[%s].1;' % (mm.group(3), seq2, idx)]
         elif enum:
             mm = re.fullmatch(r'\(\s*(\w+)\s*,\s*(&?)(\w+)\s*\)', pat)
             if not mm:
@@ -297,8 +304,14 @@ def r16_question(text, ctx):
         line = lines[j]
         # gather a statement that may span several lines: starts at a line, ends with `?;`
         stripped = line.strip()
+        popped = 0
         if stripped.endswith('?;') and _balanced(stripped):
             stmt_lines = [line]
+            popped = 0
+            # a method chain continued from previous lines: `recv\n    .method(..)?;`
+            while stmt_lines[0].strip().startswith('.') and out and not out[-1].strip().endswith((';', '{', '}')):
+                stmt_lines.insert(0, out.pop())
+                popped += 1
         else:
             # multi-line statement: find start line with unbalanced open, ending at `)?;`
             stmt_lines = None
@@ -323,7 +336,7 @@ def r16_question(text, ctx):
         if core.count('?') != 0 and re.search(r'\?\s*[;.)\],]', core):
             # nested `?` inside: leave alone
             out.extend(stmt_lines)
-            j += len(stmt_lines)
+            j += len(stmt_lines) - popped
             continue
         n += 1
         ctx.q += 1
@@ -339,7 +352,7 @@ def r16_question(text, ctx):
         else:
             out.append('%slet %s = %s;' % (ind, q, core))
             out.append('%s%s?;' % (ind, q))
-        j += len(stmt_lines)
+        j += len(stmt_lines) - popped
     ctx.note('R16', n)
     return '\n'.join(out)
 
@@ -388,6 +401,18 @@ def custom_subst(text, ctx, subst):
     return text
 
 
+def r11_set_keys(text, ctx):
+    """`.set("Key", v)` -> `.set(lit_<hex>(), v)`: K: Into<Vec<u8>> made concrete at a &str key (its UTF-8 bytes)."""
+    n = [0]
+
+    def conv(m):
+        n[0] += 1
+        return '.set(' + _str_to_bytes_expr(m.group(1), ctx) + ','
+    t = re.sub(r'\.set\(\s*"((?:[^"\\]|\\.)*)"\s*,', conv, text)
+    ctx.note('R11', n[0])
+    return t
+
+
 def one_stmt_per_line_braces(text):
     """put `{` of the function body on its own line (ghost slot between signature and body)"""
     i = text.index('{')
@@ -402,6 +427,7 @@ def apply_rules(text, ctx, opts):
     text = r6_logging(text, ctx)
     text = r1_bytes(text, ctx)
     text = r3_fmt(text, ctx)
+    text = r11_set_keys(text, ctx)
     text = r2_loops(text, ctx, opts.get('loops'))
     text = r2b_while_slots(text, ctx)
     if not opts.get('no_sink'):
